@@ -2303,11 +2303,12 @@ get_identifier(int c) {
     // This is actually a wide-character or wide-string literal or some such.
     get();
     string str;
+    int first_char = 0;
     if (name[name.size() - 1] == 'R') {
       name.resize(name.size() - 1);
       str = scan_raw(c);
     } else {
-      str = scan_quoted(c);
+      str = scan_quoted(c, &first_char);
     }
 
     // Figure out the correct character type to use.
@@ -2329,12 +2330,10 @@ get_identifier(int c) {
 
     YYSTYPE result;
     if (c == '\'') {
-      // We don't really care about the type for now.
-      if (!str.empty()) {
-        result.u.integer = (int)str[0];
-      } else {
-        result.u.integer = 0;
-      }
+      // We don't really care about the type for now, but unlike plain char,
+      // the wide and Unicode character types are not narrow signed types:
+      // the value is the code unit itself.
+      result.u.integer = first_char;
       return get_literal(CHAR_TOK, loc, str, result);
     } else {
       result.u.expr = new CPPExpression(str);
@@ -3057,8 +3056,9 @@ scan_escape_sequence(int c) {
     // hex character.
     c = get();
     if (isxdigit(c)) {
+      // A hexadecimal escape sequence takes all the digits that follow.
       int val = hex_val(c);
-      if (isxdigit(peek())) {
+      while (isxdigit(peek())) {
         val = (val << 4) | hex_val(get());
       }
       return val;
@@ -3096,7 +3096,7 @@ scan_escape_sequence(int c) {
  *
  */
 string CPPPreprocessor::
-scan_quoted(int c) {
+scan_quoted(int c, int *first_char) {
   int quote_mark = c;
 
   string str;
@@ -3107,6 +3107,10 @@ scan_quoted(int c) {
       c = scan_escape_sequence(c);
     }
 
+    if (first_char != nullptr && str.empty()) {
+      // The value of the first character, before it is narrowed to char.
+      *first_char = c;
+    }
     str += c;
     c = get();
   }
